@@ -397,7 +397,7 @@ def parse_kv(line):
 # --------------------------------------------------------------------------
 
 def compare(run, cases, impl, model, canon_model=None, canon_impl=None, signature=None,
-            nontrivial=None, context=None, max_replays=3, get_impl=None, impl_for_spec=None):
+            nontrivial=None, context=None, max_replays=3, get_impl=None, impl_for_spec=None, eq=None, spec_of=None):
     """impl[i] is 'impl=<obs>', model[i] is 'model=<obs> spec=<obs>'.
     property mismatch: impl != spec (VIOLATION unless a known-finding signature matches)
     correspondence mismatch: impl != model while impl == spec (model is stale)"""
@@ -409,13 +409,15 @@ def compare(run, cases, impl, model, canon_model=None, canon_impl=None, signatur
             continue
         ikv, mkv = parse_kv(im), parse_kv(mo)
         if get_impl:
-            ikv = {"impl": get_impl(im)}
+            ikv = {"impl": get_impl(im, mo)}
         if mo.startswith("ERROR") or "model" not in mkv or "impl" not in ikv:
             corr_mis.append((i, c, im, mo))
             continue
         n_eval += 1
         iv = ikv["impl"]
         mv, sv = mkv["model"], mkv.get("spec", mkv["model"])
+        if spec_of:
+            sv = spec_of(c, mkv, mv, sv)
         if canon_model:
             mv, sv = canon_model(mv), canon_model(sv)
         if canon_impl:
@@ -423,17 +425,18 @@ def compare(run, cases, impl, model, canon_model=None, canon_impl=None, signatur
         if nontrivial is None or nontrivial(c, iv):
             distinct.add(hashlib.sha256((c + "|" + iv).encode()).digest()[:8])
         ivs = impl_for_spec(iv) if impl_for_spec else iv
-        if ivs != sv:
+        same = eq if eq else (lambda a, b: a == b)
+        if not same(ivs, sv):
             sig = signature(c, iv, mv, sv, context(i) if context else None) if signature else None
             if sig and any(k["signature"] == sig for k in run.known):
                 run.known_hit(sig, c if len(c) < 160 else c[:160] + "...")
-                if iv != mv:
+                if not same(iv, mv):
                     corr_mis.append((i, c, im, mo))
             else:
                 prop_mis.append((i, c, ivs, mv, sv))
-                if iv != mv:
+                if not same(iv, mv):
                     corr_mis.append((i, c, im, mo))
-        elif iv != mv:
+        elif not same(iv, mv):
             corr_mis.append((i, c, im, mo))
     prop_mis.sort(key=lambda t: (len(t[1]), t[0]))
     for (i, c, iv, mv, sv) in prop_mis[:max_replays]:
@@ -532,18 +535,25 @@ def check_C13(run, replay=None):
 
 # ---- router family --------------------------------------------------------
 
-def fam_impl(im):
+def fam_impl(im, mo=""):
     kv = parse_kv(im)
     if "status" not in kv:
         return "?" + im
-    return kv["status"] + "|" + kv.get("trace", "-")
+    out = kv["status"] + "|" + kv.get("trace", "-")
+    mv = parse_kv(mo).get("model", "")
+    if mv.count("|") >= 2:
+        # the model reports a parse observation only for operations declared by a P line
+        mparse = mv.split("|", 2)[2]
+        out += "|" + ("-" if mparse == "-" else kv.get("parse", "-"))
+    return out
 
 
 def fam_impl_for_spec(iv):
     """projection compared with the declarative spec: authenticator call events
     dropped (which hooks are consulted is not part of the property), preflight
     header list compared as a set"""
-    st, _, tr = iv.partition("|")
+    parts = iv.split("|", 2)
+    st, tr = parts[0], parts[1] if len(parts) > 1 else "-"
     evs = []
     for e in tr.split(";"):
         if e.startswith("A") and "(" in e:
@@ -557,14 +567,71 @@ def fam_impl_for_spec(iv):
             e = "CORS(%s!%s)" % (m.group(1), hs)
         if e and e != "-":
             evs.append(e)
-    return st + "|" + (";".join(evs) if evs else "-")
+    out = st + "|" + (";".join(evs) if evs else "-")
+    if len(parts) > 2:
+        out += "|" + parts[2]
+    return out
+
+
+def parse_equal(a, b):
+    """Parse observations: equal, or both errors where the implementation's
+    message mentions (one of) the parameter(s) the model/reference names."""
+    if a == b:
+        return True
+    ma, mb = re.match(r"Err\((.*)\)$", a), re.match(r"Err\((.*)\)$", b)
+    if ma and mb:
+        # a: implementation message (hex); b: '+'-joined hex names
+        try:
+            msg = bytes.fromhex(ma.group(1)).decode("latin1") if ma.group(1) != "-" else ""
+        except ValueError:
+            return False
+        for hn in mb.group(1).split("+"):
+            try:
+                name = bytes.fromhex(hn).decode("latin1") if hn != "-" else ""
+            except ValueError:
+                return False
+            if name and name in msg:
+                return True
+        return False
+    return False
+
+
+def fam_eq(a, b):
+    pa, pb = a.split("|", 2), b.split("|", 2)
+    if pa[:2] != pb[:2]:
+        return False
+    if len(pa) < 3 or len(pb) < 3:
+        return len(pa) == len(pb) or (pa + ["-"])[2] == (pb + ["-"])[2] == "-"
+    return parse_equal(pa[2], pb[2])
+
+
+def fam_spec_of(c, mkv, mv, sv):
+    """spec observation = declarative dispatch/trace (from the model line) + the
+    parse observation of the harness's reference parser (#ref= on the case line,
+    valid when the reference's template is the one dispatched)"""
+    mparts = mv.split("|", 2)
+    if len(mparts) < 3:
+        return sv
+    parse = mparts[2]
+    m = re.search(r" #ref=(\S+)", c)
+    if m and parse != "-":
+        ref = m.group(1)
+        if "@" in ref:
+            raw, ref = ref.split("@", 1)
+            if ("H" in sv) and (":" + raw + "[") in sv:
+                parse = ref
+        else:
+            parse = ref
+    if not re.search(r"(^|;)H", sv.split("|", 1)[1] if "|" in sv else ""):
+        parse = "-"
+    return sv + "|" + parse
 
 
 def fam_context(cases):
     """index -> the D and S lines of the request's package"""
     heads = {}
     for c in cases:
-        if c.startswith("D ") or c.startswith("S "):
+        if c.startswith("D ") or c.startswith("S ") or c.startswith("P "):
             heads.setdefault(c.split(" ", 2)[1], []).append(c)
 
     def ctx(i):
@@ -601,7 +668,8 @@ def check_router_family(run, replay, rule, trusted, signature=None, extra_cov=No
     ctx = fam_context(cases)
     nbad = fam_report_bad_packages(run, meta)
     compare(run, cases, impl, model, get_impl=fam_impl, impl_for_spec=fam_impl_for_spec,
-            nontrivial=lambda c, iv: not iv.startswith("404|"), context=ctx, signature=signature)
+            nontrivial=lambda c, iv: not iv.startswith("404|"), context=ctx, signature=signature,
+            eq=fam_eq, spec_of=fam_spec_of)
     ridx = [i for i, c in enumerate(cases) if c.startswith("R ")]
     pick = [ridx[k] for k in sorted({0, len(ridx) // 3, len(ridx) // 2, len(ridx) - 1})] if ridx else []
     dispatched = sum(1 for i in ridx if not impl[i].startswith("status=404"))
@@ -628,6 +696,35 @@ ROUTER_TRUSTED = [
     "oracles: net/url parsing of the request line (URL.Path, URL.Query()) and url.Parse(servers[0].url).Path are computed by the harness with net/url and handed to the model",
     "the reflective driver (scratch/reg) and the AST-generated zz_driver_gen.go installed into each generated package",
 ]
+
+
+def check_C04(run, replay=None):
+    return check_router_family(
+        run, replay,
+        rule="parameter declaration matrix: 10 type kinds x {query scalar, query array, header scalar, header array} x required/optional x "
+             "{inline, schema $ref, component-parameter $ref} x {operation level, path-item level} + nullable variants (1120 cells; thorough: all, "
+             "quick: seeded 140), packed 6 per operation; per operation: all valid, all absent, and each parameter varied over its type's lexeme "
+             "classes (canonical, boundary +-2^31/+-2^63/1e309/float32 max, out-of-range, garbage, empty, leading +, leading zeros, whitespace, "
+             "non-ASCII digits) and cardinalities {absent, two, three} while the others stay valid; Parse() is called inside the handler and the "
+             "params struct dumped reflectively; compared with the extracted model and with an independent reference parser in the harness "
+             "(strconv / time.Parse as the lexical-space oracles); an error must mention an offending parameter; non-trivial = not a 404",
+        trusted=ROUTER_TRUSTED + [
+            "oracles: strconv.ParseFloat and time.Parse(RFC3339Nano) results are computed by the harness with the real functions and handed "
+            "to the model as tables (float/time lexical spaces are oracle-relative); strconv.ParseInt/ParseBool are modelled and proved against "
+            "an independent definition of the lexical space",
+            "the harness's reference parser (cmd/vh/params.go refParse) as the executable reading of the property for the tie"])
+
+
+def check_C05(run, replay=None):
+    return check_router_family(
+        run, replay,
+        rule="seeded template sets (depth<=4, literal/variable conflicts, trailing slashes) whose variables get typed parameters (string, "
+             "integer/int32/int64, number/float/double, boolean, date-time, password; inline, schema $ref, component-parameter $ref) x 10 "
+             "base-path forms; requests: every template instantiated with every choice of segment at its variable positions from an alphabet of "
+             "typed lexemes (valid, out-of-range, empty, foreign, escaped), plus the path one segment longer/shorter; for every dispatched "
+             "request Parse() is called in the handler and Params.Path dumped; compared with the model and the reference (typed value of exactly "
+             "the matched segment, or an error naming the first empty/ill-typed variable); non-trivial = not a 404",
+        trusted=ROUTER_TRUSTED + ["oracles as C04 (ParseFloat / time.Parse tables)"])
 
 
 def check_C03(run, replay=None):
@@ -708,7 +805,7 @@ def check_C17(run, replay=None):
         trusted=ROUTER_TRUSTED + ["http.CanonicalHeaderKey modelled for ASCII (Model/Serve.v canon_key), tied by these cases"])
 
 
-CHECKS = {"C19": check_C19, "C13": check_C13, "C03": check_C03, "C11": check_C11, "C16": check_C16, "C17": check_C17}
+CHECKS = {"C19": check_C19, "C13": check_C13, "C03": check_C03, "C04": check_C04, "C05": check_C05, "C11": check_C11, "C16": check_C16, "C17": check_C17}
 
 
 def setup():
